@@ -144,6 +144,34 @@ def audit():
     return res
 
 
+def modules_of(theorems):
+    """the library modules an independent re-check of these theorems has to replay: every module that declares one of them, and
+    every module of BB/Props, BB/Spec and the model proper those modules import (transitively, inside the library BB)"""
+    src = {}
+    for root, _, files in os.walk(os.path.join(LEAN_DIR, 'BB')):
+        for f in files:
+            if f.endswith('.lean'):
+                path = os.path.join(root, f)
+                mod = os.path.relpath(path, LEAN_DIR)[:-5].replace(os.sep, '.')
+                src[mod] = open(path, encoding='utf-8').read()
+    want = set()
+    for name in theorems:
+        short = name.split('.')[-1]
+        pat = re.compile(r'^\s*(?:private\s+|protected\s+)?(?:theorem|lemma|def|abbrev|structure|inductive)\s+(?:[\w.]*\.)?' + re.escape(short) + r'\b', re.M)
+        for mod, text in src.items():
+            if pat.search(text):
+                want.add(mod)
+    todo = list(want)
+    while todo:
+        m = todo.pop()
+        for imp in re.findall(r'^import\s+(BB\.[\w.]+)', src.get(m, ''), re.M):
+            if imp in src and imp not in want:
+                want.add(imp)
+                todo.append(imp)
+    slow = set(re.findall(r'^import\s+(BB\.[\w.]+)', open(os.path.join(LEAN_DIR, 'BBSlow.lean')).read(), re.M)) if os.path.exists(os.path.join(LEAN_DIR, 'BBSlow.lean')) else set()
+    return sorted(m for m in want if m not in slow)
+
+
 def check_obligations(prop, expected):
     """Build, audit and grep.  `expected`: list of fully qualified theorem names that decide
     `prop`.  Returns dict(obligations, discharged, failed=[(name, why)], log)."""
@@ -162,13 +190,18 @@ def check_obligations(prop, expected):
                     failed=[('Audit.lean', str(e)[-4000:])], log=str(e), axioms={})
     if os.environ.get('VERIF_TIER_RUNNING') == 'thorough' and expected:
         # independent re-check of the compiled library (every module BB imports) by Lean's external checker
-        rc, out = run(['lake', 'env', 'leanchecker', 'BB'], cwd=LEAN_DIR, timeout=3600)
-        if rc != 0 and (rc < 0 or rc >= 128 or not out.strip()):
-            # killed (out of memory when several heavy jobs share the machine) or died without a word: the re-checker did
-            # not run to a verdict.  That is a failure of the infrastructure (exit 2), not a statement about any proof.
-            raise RuntimeError('leanchecker did not run to completion (exit status {}, no diagnostics): not a verdict'.format(rc))
-        if rc != 0:
-            failed.append(('leanchecker', out[-2000:]))
+        # (module by module, in small batches: one process for the whole library needs > 45 GB by now)
+        mods = modules_of(expected)
+        for k in range(0, len(mods), 12):
+            batch = mods[k:k + 12]
+            rc, out = run(['lake', 'env', 'leanchecker'] + batch, cwd=LEAN_DIR, timeout=3600)
+            if rc != 0 and (rc < 0 or rc >= 128 or not out.strip()):
+                # killed (out of memory when several heavy jobs share the machine) or died without a word: the re-checker did
+                # not run to a verdict.  That is a failure of the infrastructure (exit 2), not a statement about any proof.
+                raise RuntimeError('leanchecker did not run to completion (exit status {}, no diagnostics): not a verdict'.format(rc))
+            if rc != 0:
+                failed.append(('leanchecker ' + ' '.join(batch), out[-2000:]))
+                break
     if os.environ.get('VERIF_TIER_RUNNING') == 'thorough' and expected:
         from harness import obligations as _ob
         slow = _ob.SLOW_THEOREMS.get(prop, [])
